@@ -236,6 +236,22 @@ func (x *Exec) binop(st *State, op token.Token, a, b Val, t types.Type, pos toke
 		x.fail("binop %s on %T,%T at %s", op, a, b, x.posStr(pos))
 	}
 	if at.So == SString {
+		if (op == token.EQL || op == token.NEQ) && (at.Nil == "true" || bt.Nil == "true") {
+			// comparison with the nil byte slice
+			var r T
+			switch {
+			case at.Nil == "true" && bt.Nil == "true":
+				r = TTrue
+			case bt.Nil == "true":
+				r = x.nilness(st, at)
+			default:
+				r = x.nilness(st, bt)
+			}
+			if op == token.NEQ {
+				return Not(r)
+			}
+			return r
+		}
 		switch op {
 		case token.ADD:
 			return Concat(at, bt)
@@ -376,7 +392,10 @@ func (x *Exec) nilness(st *State, v Val) T {
 		return TFalse
 	case T:
 		if vv.So == SString {
-			x.e.note("nil and empty byte slices are identified")
+			if vv.Nil != "" {
+				return T{S: vv.Nil, So: SBool}
+			}
+			x.e.note("nil and empty byte slices are identified (except for values returned by KVStore.Get)")
 			return Eq(StrLen(vv), IntLit(0))
 		}
 	}
